@@ -15,7 +15,7 @@ from pathlib import Path
 
 VERIF = Path(__file__).resolve().parent.parent
 COQ = VERIF / "coq"
-REPO = Path("/repo")
+REPO = Path(os.environ.get("VERIF_REPO", "/repo"))
 NCPU = 16
 
 ALLOWED_AXIOMS = {
@@ -80,8 +80,13 @@ def run(cmd, cwd=None, timeout=600, env=None, input=None):
 
 
 def ensure_makefile():
+    """_CoqProject lists every theories/**/*.v (coqdep orders them); regenerated when the set changes."""
     mk = COQ / "Makefile"
     cp = COQ / "_CoqProject"
+    want = "-Q theories Ford\n" + "".join(
+        str(f.relative_to(COQ)) + "\n" for f in sorted((COQ / "theories").rglob("*.v")))
+    if not cp.exists() or cp.read_text() != want:
+        cp.write_text(want)
     if not mk.exists() or mk.stat().st_mtime < cp.stat().st_mtime:
         rc, out = run(["coq_makefile", "-f", "_CoqProject", "-o", "Makefile"], cwd=COQ)
         if rc != 0:
@@ -117,8 +122,10 @@ class Check:
         self.extra = {}
         self.notes = []
         self.tmp = Path(tempfile.mkdtemp(prefix=f"verif_{pid}_"))
-        self.findings = [f for f in json.load(open(VERIF / "known_findings.json"))["findings"]
-                         if f["property"] == pid]
+        allf = list(json.load(open(VERIF / "known_findings.json"))["findings"])
+        for extra in sorted((VERIF / "known_findings.d").glob("*.json")) if (VERIF / "known_findings.d").is_dir() else []:
+            allf += json.load(open(extra))["findings"]
+        self.findings = [f for f in allf if f["property"] == pid]
 
     # ---------------------------------------------------------------- proof side
     def obligation(self, name, ok, detail=""):
